@@ -60,6 +60,9 @@ fn room_ids() -> impl Strategy<Value = String> {
         2 => idgen::room_id(),
         3 => (hostile_local(), idgen::server_name()).prop_map(|(l, s)| format!("!{l}:{s}")),
         1 => hostile_local().prop_map(|l| format!("!{l}")),
+        // room ids are opaque: what follows the first colon need not be a server name
+        1 => (hostile_local(), hostile_local(), idgen::server_name()).prop_map(|(l, m, s)| format!("!{l}:{m}:{s}")),
+        1 => (hostile_local(), prop_oneof![Just("/".to_owned()), Just("example.com:notaport".to_owned()), Just("under_score.hs".to_owned()), Just(String::new()), Just("b c".to_owned()), hostile_local()]).prop_map(|(l, junk)| format!("!{l}:{junk}")),
     ]
 }
 fn alias_ids() -> impl Strategy<Value = String> {
